@@ -341,6 +341,42 @@ def ob_buildsystem_files():
     return h
 
 
+def ob_targets_vs_ninja(dim):
+    """intro-targets.json / intro-installed.json against the build.ninja of the SAME configuration (real Interpreter, real NinjaBackend.generate, real
+    mintro.list_targets / list_installed on a generated project without a compiled language - harness/proj.py): every target's `filename` entries are exactly
+    the outputs its build statement produces, its sources + generated sources are exactly the explicit inputs that statement consumes, and exactly the installed
+    outputs are listed with the destination install uses"""
+    def h():
+        from harness import proj as PJ
+        pr, c, g = PJ.run_project(dim)
+        by_name = {}
+        for e in c.targets:
+            check(e['name'] not in by_name, 'every target is listed once'); by_name[e['name']] = e
+        ab = lambda rel: os.path.normpath(os.path.join(c.bld, rel))
+        for t in ('A', 'B', 'C'):
+            check(t in by_name, 'every custom target is listed')
+            if t not in by_name: continue
+            e = by_name[t]
+            st = g.stmts[g.producer[pr.outs[t][0]]]
+            check(sorted(os.path.normpath(f) for f in e['filename']) == sorted(ab(o) for o in st['outs']), 'filename = the outputs build.ninja produces for the target')
+            check([os.path.normpath(f) for f in e['filename']] == [ab(o) for o in pr.outs[t]], 'filename = the declared outputs, in order')
+            ts = e['target_sources']
+            listed = sorted(os.path.normpath(x) for blk in ts for x in list(blk['sources']) + list(blk['generated_sources']))
+            check(listed == sorted(ab(i) for i in st['ins']), 'sources + generated sources = the inputs the statement consumes')
+        for nm, flag in (('al', pr.alias), ('rt', pr.run_needs)):
+            check((nm in by_name) == (flag is not None), 'alias / run targets are listed iff defined')
+            if nm in by_name:
+                for f in by_name[nm]['filename']: check(os.path.relpath(f, c.bld) in g.producer, 'the name listed for an alias / run target is a statement of build.ninja')
+        inst = {os.path.normpath(k): v for k, v in c.installed.items()}
+        exp_inst = {ab('c1.txt'): os.path.join(c.it.environment.coredata.optstore.get_value_for('prefix'), 'share', 'c1.txt')} if pr.installed_c else {}
+        check(inst == exp_inst, 'exactly the installed outputs are listed, with the destination install uses')
+        if 'C' in by_name: check(by_name['C']['installed'] == pr.installed_c, 'the installed flag of a target')
+        cover('done')
+        if pr.installed_c: cover('installed')
+        if pr.b_generated: cover('generator')
+    return h
+
+
 def ob_options():
     def h():
         st = O.OptionStore(False)
@@ -389,5 +425,9 @@ def obligations(tier):
                           placeholders='{prefix} {includedir} {mandir} {datadir}', strip_directory='both'), labels=('headers', 'man', 'data', 'install_subdirs', 'targets'), max_paths=3000000))
     out.append(Obligation('buildoptions', ob_options(), dict(options='project int/bool, system combo, builtin bool; symbolic values'), labels=('done',)))
     out.append(Obligation('install-targets', ob_install_targets(), dict(real='Backend.generate_target_install, CustomTarget.install_dir_names, mintro.list_install_plan', outputs='1-3', install_dir="one for all | one per output; false | plain string | get_option('bindir') | get_option('datadir')"), labels=('installed', 'nothing')))
+    for dim in (('inputs',) if tier == 'quick' else ('inputs', 'consumers')):
+        out.append(Obligation('targets-vs-ninja[%s]' % dim, ob_targets_vs_ninja(dim), dict(real='Interpreter.run + NinjaBackend.generate + mintro.list_targets / list_installed on a generated project without a compiled language',
+                              targets='3 custom targets (1-2 outputs) consuming a source file / a whole target / one indexed output / a configure_file output / a generator list; alias / run target; subdirectory',
+                              symbolic='build_by_default x2, build_always_stale, install, the index into a multi-output target', varies=dim), labels=('done', 'installed') + (('generator',) if dim == 'inputs' else ()), max_paths=2000000, path_timeout=300))
     out.append(Obligation('buildsystem-files', ob_buildsystem_files(), dict(real='Interpreter (subdir, subproject), get_build_def_files, mintro.list_buildsystem_files', guards='4 symbolic conditions: two subdirs (one with a nested subdir), one subproject'), labels=('done',)))
     return out
